@@ -45,6 +45,9 @@ def swarm_config(rng, prop, tier, faults):
     chosen = [rng.choice(classes) for _ in range(ncls)]
     hi = 60 if tier == "quick" else 200
     steps = rng.randint(10, hi) if rng.random() < 0.8 else rng.randint(6, 14)
+    deep = tier != "quick" and rng.random() < 0.08
+    if deep:
+        steps = rng.randint(200, 400)       # a few long histories with larger pools
     w = dict(TASK_WEIGHTS[prop])
     # swarm: knock out a random subset of task kinds
     for k in list(w):
@@ -64,7 +67,8 @@ def swarm_config(rng, prop, tier, faults):
         "maxcells": rng.choice((2, 3, 3, 4)) if tier == "quick" else rng.choice((2, 3, 4, 5)),
         "nonuniform": rng.random() < 0.5,
         "faults": enabled_faults,
-        "vmax": rng.choice((4, 6, 8)), "tmax": 10, "fmax": 8,
+        "vmax": rng.choice((4, 6, 8)) if not deep else rng.choice((8, 12)),
+        "tmax": 10 if not deep else 16, "fmax": 8 if not deep else 12,
         "periodic_bias": rng.random() < (0.6 if prop == "C03" else 0.35),
         "ext_solver": rng.random() < (0.7 if prop == "C04" else 0.3),
         # scheduling granularity: mean number of consecutive ops one task gets
